@@ -14,6 +14,21 @@ SESS = ("Task-level session machine Model/Session.lean (AsyncSession, Reader, He
         "model (per-event observables + final task set) and evaluates the property statement on the implementation alone. ")
 
 CLAIMS = {
+    'C03': dict(
+        text="Model/Framing.lean transcribes Reader.on_data/_process/_process_1/stop and both deserialize() functions. Proved for all lists of "
+             "well-formed packets (wfPkt) or FIX frames (wfFixFrame) and all interleavings of segments and polls: emitted is a prefix of the "
+             "non-heartbeats before the first logout; once all bytes arrived and n polls followed emitted = expected, stopped iff logout, exactly "
+             "one close signal; nothing after a stop; for arbitrary bytes close is signalled at most once. Tie: the observed on_data/deserialize "
+             "event log of the real readers under virtual time is replayed through the model (every 1-/2-cut split of short streams, random long "
+             "ones, malformed streams for agreement only) plus a messages-out == messages-in oracle on the implementation.",
+        design="§5-C03", technique="Lean 4 proof (generic framing spec + soup/FIX instances) + event-log replay correspondence"),
+    'C04': dict(
+        text=SESS + "Proved for every event sequence: conservation of messages (reader output = gone ++ held ++ queued, in order; frames taken ++ "
+             "buffered = frames received), observable deliveries = the taken list, delivered is a subsequence of the messages sent (never reordered, "
+             "duplicated, invented) and a prefix when no late cancel occurred (C04_prefix_partial), a dispatcher step delivers the head of the queue, "
+             "a receive cancelled while blocked reports the cancellation, consumes nothing and leaves the session usable. Known finding with a "
+             "decide-d witness replayed on the implementation: a cancel landing after the helper task took the message loses it.",
+        design="§5-C04", technique="Lean 4 invariant proof over a task-level state machine + step-log replay correspondence"),
     'C05': dict(
         text=SESS + "Proved for every configuration and event sequence: invariant A (closed <-> close body entered; close-sequence monitor): transport "
              "closed / close callback entered / left at most once and in that order, no message callback started after the transport is closed, "
@@ -37,11 +52,41 @@ CLAIMS = {
              "a trip is preceded by an arrival-free period, a live peer is never dropped, any byte counts, tolerance 0 = tolerance 1. Tie: close time "
              "and cause of real sessions under virtual time vs the model; oracle with the peer-role interval.",
         design="§5-C09", technique="Lean 4 proof over executable monitor model + virtual-time differential correspondence"),
+    'C10': dict(
+        text="Theorems for all histories over Model/Seq.lean (SoupSession.send_msg, SoupClientSession.login, FixSession.send_msg): counter = initial + "
+             "number of 'S' frames written; adoption of exactly the stated number (also for the acceptance as encoded on the wire, via C12); FIX k-th "
+             "frame = logon + k (full for the repaired code path 9c458df, and under an explicit no-encode-failure hypothesis for the old one, with the "
+             "gap witness); no repeat; rejected sends invisible. Tie: real soup server / client and FIX sessions on a fake transport under virtual time; "
+             "exception per op, session.sequence, exact writes and tag 34 compared with the model; statement evaluated on the implementation.",
+        design="§5-C10", technique="Lean 4 proof over executable model + differential correspondence on operation histories"),
     'C12': dict(
         text="Theorems over all packets/payloads (layout, length prefix, round trip, byte-exact payloads 0..32766, too-long rejected, "
              "decoded kind = type character) about Model/Soup.lean, a line-by-line transcription of soup/core.py; every run diffs model "
              "and implementation on generated well-formed and malformed packets and decoder inputs and evaluates the statement on the implementation.",
         design="§5-C12", technique="Lean 4 proof over executable model + differential correspondence with soup/core.py"),
+    'C16': dict(
+        text="For every dictionary satisfying the explicit guard wfDict and every version the CLI offers (4.2/4.4/5.0/5.0SP2) the model generator's output "
+             "imports and its loaded classes equal the reference meaning of the dictionary (Spec.FixDict.denote): one field class per field (tag, type, enum "
+             "constants), header/body/trailer entry trees with components expanded in place, required flags, nested group classes via the generated unique "
+             "names, integer count fields, well-scoped groups module. Tie: 500-6000 generated dictionaries through the real parse/Generator/click command in "
+             "fresh processes, introspected classes, names and definition order diffed with the model; on the implementation alone entries = independent "
+             "expansion and built messages round-trip, validate and are framed and read back. The composition with C13/C14 (round trip and framing of "
+             "generated classes) is checked on the implementation side only.",
+        design="§5-C16", technique="Lean 4 proof gen = denote over dictionary AST + generator differential correspondence"),
+    'C17': dict(
+        text="Lean model of invocation histories of the four code-generation tools (process-level class state x abstract file system; file-open modes and "
+             "state resets as a Semantics record). Proved for the current semantics of the three generators (truncate + reset, after a5da5b2/6c43d46/388f25f) "
+             "and all worlds/histories: outcome and every written file depend on the invocation only; empty or same-target directories equal the fresh output "
+             "and import identically; no leak between specs; frame and failure theorems for every semantics. The new_project clause is partial with a witness "
+             "(known finding). Tie: 1-3-invocation histories through the real click entry points in forked processes, outcome / per-file chunk structure / "
+             "import result compared with the model; oracle compares with real fresh runs byte-for-byte.",
+        design="§5-C17", technique="Lean 4 proof over history model + differential correspondence on generator invocation histories"),
+    'C19': dict(
+        text="Theorems for every list of class statements over Model/Registry.lean (CommonMessage.__init_subclass__ / from_bytes, ITCH/OUCH/SQF id equality, "
+             "generated-app namespace rule): first declaration wins, unique, duplicate rejected with state unchanged, isolated per application, unknown raises. "
+             "Tie: each history runs in a fresh process, all 256 id bytes through every base class plus by_indicator/by_name/get_msg_classes, compared with "
+             "the model; oracle on in-quantifier histories.",
+        design="§5-C19", technique="Lean 4 proof over registry model + per-process differential correspondence"),
 }
 
 PENDING_REASON = "check not built yet in this round (work in progress; see DESIGN.md §8) — not claimed until its model, theorems and correspondence exist"
